@@ -52,6 +52,10 @@ CLAIMED = {
          "For every structure template and seed config: every prefix of every declarable name typed on a new line in every known body, every offset inside written attribute names / block types / quoted labels, prefill off and on; the candidate list must equal (labels, kinds, order) the reference model's declarable set; every candidate is applied, re-parsed and re-validated.",
          "Exactness only on files that parse without errors; AnyAttribute placeholder and dynamic-needs-block-types encode the library's choice where the statement is silent.",
          "DESIGN.md §6 C07"),
+ "C09": ("exploration", "bounded-exhaustive enumeration of configs for every addressable schema form (E1 sweep) with forest invariants and a top-level reference model",
+         "On every collected forest: nested address = parent + one step, indexes = real positions in source order, unique steps, elements inside written values, element ranges disjoint, definition range inside range; on cleanly parsing files every range is an item extent, every addressable declaration with a resolvable address has its target with the declaration's extent/header, as-reference targets are type-less, nothing is collected inside items unknown to the effective schema.",
+         "Types of expression-typed targets are not predicted; the address-resolution model is written from the statement (static/label/attribute-value steps).",
+         "DESIGN.md §6 C09"),
  "C10": ("exploration", "bounded-exhaustive enumeration of a typed expression grammar with generator-recorded references (E2), plus soundness on the E1 sweep",
          "Every expression of the typed grammar (depth 2/3) under every admitting and non-admitting constraint in 8 body contexts: the multiset of (address, exact range) of collected local origins equals the generator's list of written references; ordering by file and position; on all sweep files each origin's text re-parses to its address and no duplicates exist.",
          "Iterator variables count as written traversals; object keys only when parenthesised; only schema-known object keys (statement silent: library's choice).",
